@@ -11,4 +11,47 @@
 //@ open src/sources/mod.rs / impl Dispatcher<'a, S, Data>
 //@ item src/sources/mod.rs / impl Dispatcher<'a, S, Data> / fn clone_as_event_dispatcher props=C06 sigonly ret=r
 //@ enditem
+//@ item src/sources/mod.rs / impl Dispatcher<'a, S, Data> / fn new props=C14 sigonly ret=r
+//@ spec
+        // (proved on the body as slice Dispatcher::new)
+        ensures disp_source(&r) == source, disp_opted_in(&r) == S::NEEDS_EXTRA_LIFECYCLE_EVENTS,
+//@ enditem
+//@ item src/sources/mod.rs / impl Dispatcher<'a, S, Data> / fn into_source_inner props=C15 sigonly ret=r
+//@ spec
+        // ASSUMED (Rc internals: `Rc::try_unwrap` succeeds when this is the last handle, the function panics otherwise):
+        // if it returns, it returns the wrapped source
+        ensures r == disp_source(&self),
+//@ enditem
 //@ close
+//@ open src/sources/mod.rs / impl Clone for Dispatcher<'a, S, Data>
+//@ item src/sources/mod.rs / impl Clone for Dispatcher<'a, S, Data> / fn clone props=C15 sigonly ret=r
+//@ spec
+        // ASSUMED (`Rc::clone` of the opaque handle): the clone is a handle to the same dispatcher
+        ensures r == *self,
+//@ enditem
+//@ close
+//@ region dispatcher_ctor_specs props=C14,C01
+/// what a Dispatcher was built from (ghost; the struct is an opaque `Rc<dyn ErasedDispatcher>`, rule R5)
+pub uninterp spec fn disp_source<'a, S, Data>(d: &Dispatcher<'a, S, Data>) -> S;
+pub uninterp spec fn disp_opted_in<'a, S, Data>(d: &Dispatcher<'a, S, Data>) -> bool;
+/// Rule R15: the unsizing coercion `Rc<RefCell<DispatcherInner<S, F>>>` -> `Rc<dyn ErasedDispatcher<'a, S, Data>>` inside the
+/// tuple-struct constructor is made explicit as an identity stand-in that remembers what went in
+#[verifier::external_body]
+fn dispatcher_from_inner<'a, S: EventSource + 'a, Data, F: FnMut(S::Event, &mut S::Metadata, &mut Data) -> S::Ret + 'a>(inner: DispatcherInner<S, F>) -> (r: Dispatcher<'a, S, Data>)
+    ensures disp_source(&r) == inner.source, disp_opted_in(&r) == inner.needs_additional_lifecycle_events,
+{ unimplemented!() }
+//@ endregion
+impl<'a, S: EventSource + 'a, Data> Dispatcher<'a, S, Data> {
+//@ slice src/sources/mod.rs / impl Dispatcher<'a, S, Data> / fn new :: body props=C14,C01 name=Dispatcher::new
+//@ rw R15 1 <<Dispatcher(Rc::new(RefCell::new(DispatcherInner {>> => <<dispatcher_from_inner(((DispatcherInner {>>
+//@ sig
+/// S1 slice: the whole body of Dispatcher::new (one expression). R15: see dispatcher_from_inner.
+fn dispatcher_new_body<F: FnMut(S::Event, &mut S::Metadata, &mut Data) -> S::Ret + 'a>(source: S, callback: F) -> (r: Dispatcher<'a, S, Data>)
+//@ spec
+    ensures
+        // the dispatcher wraps exactly the source it was given ...
+        disp_source(&r) == source,
+        // C14: ... and takes part in before_sleep / before_handle_events exactly if the source's type opted in
+        disp_opted_in(&r) == S::NEEDS_EXTRA_LIFECYCLE_EVENTS,
+//@ endslice
+}
